@@ -148,6 +148,8 @@ def cases(draw: T.Any) -> dict:
         'proj_args': draw(args_list(hi=3)),
         'glob_args': draw(args_list(hi=3)),
         'nl_in_cargs': draw(st.sampled_from([False] * 11 + [True])),
+        'gen_extra': draw(args_list(hi=3)),
+        'bl': [draw(args_list(lo=1, hi=2)), draw(args_list(lo=1, hi=2)), draw(args_list(lo=1, hi=2))],
         'twotok': draw(st.lists(st.sampled_from(['x', 'A_1', 'v=1', 'inc dir', 'q']), min_size=2, max_size=4)),
     }
     return c
@@ -165,6 +167,13 @@ def compile_arg_lists(c: dict) -> T.Dict[str, T.List[str]]:
     if c.get('nl_in_cargs'):
         d['c_args'].append('-fxn=a\nb')
     return d
+
+
+def bl_args(c: dict) -> T.Tuple[T.List[str], T.List[str], T.List[str]]:
+    """(c_args, c_static_args, c_shared_args) of the both_libraries() target; unique prefixes per list"""
+    com, sta, sha = c['bl']
+    return ([f'-fxbc{i}={a}' for i, a in enumerate(com)], [f'-fxbs{i}={a}' for i, a in enumerate(sta)],
+            [f'-fxbh{i}={a}' for i, a in enumerate(sha)])
 
 
 def twotok_pairs(c: dict) -> T.Dict[str, T.List[T.Tuple[str, str]]]:
@@ -207,11 +216,21 @@ def build_files(c: dict, logdir: str) -> T.Dict[str, T.Union[str, bytes]]:
         a, b = twin_lists(c)
         lines.append(f"run_target('rt_tw1', command: [dump, '--log', {L}, '--id', 'rt_tw', '--', {mlist(a)}])")
         lines.append(f"run_target('rt_tw2', command: [dump, '--log', {L}, '--id', 'rt_tw', '--', {mlist(b)}])")
-    lines.append(f"g = generator(dump, output: '@BASENAME@.h', arguments: ['--log', {L}, '--id', 'gen', '--touch', '@OUTPUT@', '--', {mlist(c['gen'])}])")
-    lines.append(f"executable('e', 'main.c', g.process('gin.txt'), c_args: [{mlist(ca['c_args'] + [t for pr in twotok_pairs(c)['c_args'] for t in pr])}], link_args: [{mlist(ca['link_args'])}])")
+    if c.get('gen_extra') is not None:
+        # per-call extra arguments of a generator (@EXTRA_ARGS@): user strings, delivered as given
+        lines.append(f"g = generator(dump, output: '@BASENAME@.h', arguments: ['--log', {L}, '--id', 'gen', '--touch', '@OUTPUT@', '--', {mlist(c['gen'])}, '--extra', '@EXTRA_ARGS@'])")
+        proc = f"g.process('gin.txt', extra_args: [{mlist(c['gen_extra'])}])"
+    else:
+        lines.append(f"g = generator(dump, output: '@BASENAME@.h', arguments: ['--log', {L}, '--id', 'gen', '--touch', '@OUTPUT@', '--', {mlist(c['gen'])}])")
+        proc = "g.process('gin.txt')"
+    if c.get('bl'):
+        com, sta, sha = bl_args(c)
+        lines.append(f"both_libraries('bl', 'blsrc.c', c_args: [{mlist(com)}], c_static_args: [{mlist(sta)}], c_shared_args: [{mlist(sha)}])")
+    lines.append(f"executable('e', 'main.c', {proc}, c_args: [{mlist(ca['c_args'] + [t for pr in twotok_pairs(c)['c_args'] for t in pr])}], link_args: [{mlist(ca['link_args'])}])")
     tenv = ', '.join(f"'VERIF_E{i}': {mq(v)}" for i, v in enumerate(c['test_env']))
     lines.append(f"test('t', dump, args: ['--log', {L}, '--id', 'test', '--', {mlist(c['test'])}], env: {{{tenv}}})")
     return {'meson.build': '\n'.join(lines) + '\n', 'dump.py': DUMP_PY, 'main.c': 'int main(void) { return 0; }\n', 'gin.txt': 'x\n',
+            'blsrc.c': 'int bl(void) { return 0; }\n',
             'feed.bin': b'feed\r\n\x00\xff line2\n'}
 
 
@@ -431,7 +450,12 @@ def check_case(c: dict, workdir: str, ev: T.Optional[Evidence], confirm_sub: boo
                                    f'the build definition\n expected: {sl(want_args)!r}\n received: {recs[0]["argv"]!r}\n$ {rr.command}')
             pos_results.append(('run_target/pickled-twin', twin_lists(c)[0]))
         # generator
-        f = position('generator', 'gen', 'e.p/gin.h', [[c['gen'], sl(c['gen'])]], 'generator')
+        if c.get('gen_extra') is not None:
+            # extra_args are the user's per-call strings: only the unchanged form is right for them
+            exp_gen = [c['gen'] + ['--extra'] + c['gen_extra'], sl(c['gen']) + ['--extra'] + c['gen_extra']]
+        else:
+            exp_gen = [c['gen'], sl(c['gen'])]
+        f = position('generator', 'gen', 'e.p/gin.h', [exp_gen], 'generator')
         if f:
             return f
         pos_results.append(('generator', c['gen']))
@@ -474,6 +498,26 @@ def check_case(c: dict, workdir: str, ev: T.Optional[Evidence], confirm_sub: boo
                         last = idx[0]
                     if pairs:
                         pos_results.append((f'compile/{gname}-two-token', [t for pr in pairs for t in pr]))
+        if c.get('bl'):
+            com, sta, sha = bl_args(c)
+            for half, out, mine, other in (('static', 'libbl.a.p/blsrc.c.o', sta, sha), ('shared', 'libbl.so.p/blsrc.c.o', sha, sta)):
+                ident = 'bl_' + half
+                rr, err = run_out(out, subst(ident))
+                if rr is None:
+                    return Failure('both_libraries/no-statement', c, err)
+                if rr.rc != 0:
+                    return Failure('both_libraries/command-fails', c, f'{ident}: expanded command failed (exit {rr.rc}):\n$ {rr.command}\n{rr.output[-800:]}')
+                recs = read_records(logdir, ident)
+                if len(recs) != 1:
+                    return Failure(f'both_libraries/ran-{len(recs)}-times', c, f'{ident}: dumper ran {len(recs)} times')
+                got = expand_rsp(recs[0])
+                why = in_order_once(com + mine, got)
+                leaked = [a for a in other if a in got]
+                if why or leaked:
+                    return Failure(f'both_libraries/{half}-half-args-differ', c,
+                                   f'both_libraries(): the {half} half must be compiled with c_args + c_{half}_args and nothing of the other half\'s list; '
+                                   f'{why or ""} leaked from the other half: {leaked!r}\n expected: {com + mine!r}\n received: {got!r}')
+            pos_results.append(('compile/both_libraries-halves', com + sta + sha))
         # tests, for real
         shutil.rmtree(os.path.join(logdir), ignore_errors=True)
         os.makedirs(logdir)
